@@ -30,6 +30,7 @@ def run(prog, chk):
                     "pinned (R18.8 = R10.2)"]
     chk.decided += ["feature-writer objects keep no per-font state outside self.context (no memoising decorators, no attributes written outside __init__): a GDEF / curs writer object reused for a second font must not keep the first font's categories (R18.9 = R08.7)"]
     chk.decided += ["the GSUB over which the direction sets are closed is the one feaLib builds from the writer's whole feature file (or that table from the per-compiler cache): compileGSUB has no other answer (R18.10)"]
+    chk.decided += ["classifyGlyphs closes the neutral set over GSUB before taking it out of each class closure (R18.11 = R05.15)"]
     chk.not_decided += ["the values read back from the compiled GDEF/GPOS", "script direction data (unicodedata)"]
     chk.guard(r181, prog, chk)
     chk.guard(r182, prog, chk)
@@ -42,6 +43,7 @@ def run(prog, chk):
     from .c08 import r087
     chk.guard(r087, prog, chk, "R18.9")
     chk.guard(r1810, prog, chk)
+    chk.guard(check_neutral_closure, prog, chk, "R18.11")
     from .rounding import check_no_truthiness_on_coordinates
     n = check_no_truthiness_on_coordinates(prog, chk, "R18.6", [GDEFW_MOD, CURS_MOD, "ufo2ft.featureWriters.baseFeatureWriter"])
     need(n >= 20, "truthiness scan found too few tests")
@@ -544,7 +546,42 @@ def r1810(prog, chk):
     chk.minimum("R18.10", 4)
 
 
+# ----------------------------------------------------------------------------- R18.11 (= R05.15)
+def check_neutral_closure(prog, chk, rule):
+    """classifyGlyphs closes every class together with the neutral glyphs and then takes the neutral glyphs out again:
+    what is taken out must be the neutral glyphs *closed over GSUB themselves*, otherwise the alternates of neutral
+    glyphs (reachable from the neutral glyphs alone) stay in every class - a glyph in both the LTR and the RTL class
+    makes the kern writers drop all its pairs, and the cursive split treats it as both directions."""
+    ix = prog.ix
+    cg = ix.get_func("ufo2ft.util:classifyGlyphs")
+    cfg = prog.cfg(cg)
+    closes = [c for c in calls_named(cg, "closeGlyphsOverGSUB") if len(c.args) >= 2]
+    subs = [b for b in A.body_nodes(cg.node) if isinstance(b, ast.BinOp) and isinstance(b.op, ast.Sub) and isinstance(b.right, ast.Name)]
+    subs += [c for c in A.body_nodes(cg.node) if isinstance(c, ast.Call) and isinstance(c.func, ast.Attribute) and c.func.attr in ("difference", "difference_update") and len(c.args) == 1 and isinstance(c.args[0], ast.Name)]
+    need(closes and subs, f"cannot interpret {cg.short}: closure / subtraction of the neutral glyphs")
+    for b in subs:
+        nm = b.right if isinstance(b, ast.BinOp) else b.args[0]
+        ok = False
+        for c in closes:
+            if not (isinstance(c.args[1], ast.Name) and c.args[1].id == nm.id):
+                continue
+            gs_ = [g for g in may_conds(prog, cg, c) if g.kind in ("if", "boolop", "ifexp", "while", "for")]
+            mine = [g for g in may_conds(prog, cg, b) if g.kind in ("if", "boolop", "ifexp", "while", "for")]
+            extra = [g for g in gs_ if T(g.test) not in {T(m.test) for m in mine} and T(g.test) != nm.id]
+            # the closure call is on every path to the subtraction, except where the neutral set is empty
+            if not extra and c.lineno < b.lineno:
+                ok = True
+        chk.ob(rule, f"{cg.short}|{T(b, 40)}|the set taken out of a class closure is closed over GSUB itself", ok, where(cg, b), detail=f"closeGlyphsOverGSUB(gsub, {nm.id}) before `{T(b, 40)}`",
+               message=f"{cg.short}: `{T(b, 50)}` takes `{nm.id}` out of a class that was closed over GSUB together with it, but `{nm.id}` itself is not closed over GSUB first: glyphs reachable "
+                       f"from the neutral glyphs alone (alternates of punctuation) stay in every class - in both bidi classes, so the kern writers drop all their pairs")
+    chk.minimum(rule, 1)
+
+
 MUTANTS = [
+    M("neutral glyphs no longer closed over GSUB on their own (seeded C05o)", "ufo2ft/util.py", "classifyGlyphs",
+      "if neutralGlyphs:\n    closeGlyphsOverGSUB(gsub, neutralGlyphs)", "pass", rule="R18.11"),
+    M("neutral closure without the emptiness guard", "ufo2ft/util.py", "classifyGlyphs",
+      "if neutralGlyphs:\n    closeGlyphsOverGSUB(gsub, neutralGlyphs)", "closeGlyphsOverGSUB(gsub, neutralGlyphs)", kind="equiv"),
     M("temporary GSUB skipped when the feature blocks hold no substitutions (seeded C18m)", "ufo2ft/featureWriters/baseFeatureWriter.py", "BaseFeatureWriter.compileGSUB",
       "fvar = None", "fvar = None\nif not any(type(s).__name__.endswith('SubstStatement') for b in ast.iterFeatureBlocks(self.context.feaFile) for s in b.statements):\n    return None", rule="R18.10"),
     M("cache filled with a placeholder", "ufo2ft/featureWriters/baseFeatureWriter.py", "BaseFeatureWriter.compileGSUB",
